@@ -276,7 +276,7 @@ func Run(c *core.Ctx) {
 		Replay(c, core.ReadRequests(c.Arg))
 		return
 	}
-	n := c.Scale(600, 30000)
+	n := c.Scale(1800, 30000)
 	for i := 0; i < n; i++ {
 		switch {
 		case i%3 == 0:
@@ -289,7 +289,7 @@ func Run(c *core.Ctx) {
 	}
 	smallCutOrders(c, !c.Quick())
 	if c.Gotree != "" {
-		m := c.Scale(160, 5000)
+		m := c.Scale(300, 5000)
 		for i := 0; i < m; i++ {
 			if i%2 == 0 {
 				cliMatrixCase(c)
